@@ -90,9 +90,9 @@ theorem didSet_run (v : Nat) (s : State) (vc : VarCell) (hv : s.vars[v]? = some 
       else if s.stabNum ≤ vc.setAt then (.ok (), bumped s)
       else
         let W := bumped (withCell v { vc with setAt := s.stabNum } s)
-        if s.cfg.debug = true ∧ W.isStale vc.node = false then
+        if s.cfg.debug = true ∧ (!(s.nodeD vc.node).valid || W.isStale vc.node) = false then
           (.error (.site "var:did_set:watch-stale"), W)
-        else if (s.isNecessary vc.node && !(s.nodeD vc.node).inRch) = true then
+        else if ((s.nodeD vc.node).valid && s.isNecessary vc.node && !(s.nodeD vc.node).inRch) = true then
           (rchInsert vc.node).run.run W
         else (.ok (), W) := by
   simp only [didSetVarWhileNotStabilising, run_bind, run_getVar, hv, run_ite, run_panic, run_pure,
@@ -117,7 +117,7 @@ theorem didSet_run (v : Nat) (s : State) (vc : VarCell) (hv : s.vars[v]? = some 
       have hn : W.isNecessary vc.node = s.isNecessary vc.node := by subst hWdef; rfl
       have hd : W.nodeD vc.node = s.nodeD vc.node := by subst hWdef; rfl
       rw [hc, hn, hd]
-      by_cases hs : s.cfg.debug = true ∧ W.isStale vc.node = false
+      by_cases hs : s.cfg.debug = true ∧ (!(s.nodeD vc.node).valid || W.isStale vc.node) = false
       · simp only [if_pos hs]
       · simp only [if_neg hs]
 
@@ -173,9 +173,10 @@ theorem writeVar_outside_closed (v : Nat) (f : Val → Val) (isSet : Bool) (s : 
         (.error (.site "var:abandoned-watch-node"), withCell v { vc with value := f vc.value } s)
       else if s.stabNum ≤ vc.setAt then
         (.ok vc.value, bumped (withCell v { vc with value := f vc.value } s))
-      else if s.cfg.debug = true ∧ (stampedWrite v vc (f vc.value) s).isStale vc.node = false then
+      else if s.cfg.debug = true ∧ (!(s.nodeD vc.node).valid ||
+          (stampedWrite v vc (f vc.value) s).isStale vc.node) = false then
         (.error (.site "var:did_set:watch-stale"), stampedWrite v vc (f vc.value) s)
-      else if (s.isNecessary vc.node && !(s.nodeD vc.node).inRch) = true then
+      else if ((s.nodeD vc.node).valid && s.isNecessary vc.node && !(s.nodeD vc.node).inRch) = true then
         mapOk vc.value ((rchInsert vc.node).run.run (stampedWrite v vc (f vc.value) s))
       else (.ok vc.value, stampedWrite v vc (f vc.value) s) := by
   rw [writeVar_outside_run v f isSet s vc hv hst,
@@ -208,9 +209,11 @@ theorem writeVar_outside_result (v : Nat) (f : Val → Val) (isSet : Bool) (s : 
     ((writeVar v f isSet).run.run s).1 =
       if vc.linked = false then .error (.site "var:abandoned-watch-node")
       else if s.stabNum ≤ vc.setAt then .ok vc.value
-      else if s.cfg.debug = true ∧ (stampedWrite v vc (f vc.value) s).isStale vc.node = false then
+      else if s.cfg.debug = true ∧ (!(s.nodeD vc.node).valid ||
+          (stampedWrite v vc (f vc.value) s).isStale vc.node) = false then
         .error (.site "var:did_set:watch-stale")
-      else if (s.isNecessary vc.node && !(s.nodeD vc.node).inRch) = false then .ok vc.value
+      else if ((s.nodeD vc.node).valid && s.isNecessary vc.node && !(s.nodeD vc.node).inRch) = false then
+        .ok vc.value
       else if s.cfg.debug = true ∧ (s.nodeD vc.node).height > s.rch.maxAllowed then
         .error (.site "recompute_heap:insert:height<=max")
       else if (s.nodeD vc.node).height < 0 then .error (.site "recompute_heap:link:height>=0")
@@ -224,14 +227,17 @@ theorem writeVar_outside_result (v : Nat) (f : Val → Val) (isSet : Bool) (s : 
   by_cases h2 : s.stabNum ≤ vc.setAt
   · rw [if_pos h2, if_pos h2]
   rw [if_neg h2, if_neg h2]
-  by_cases h3 : s.cfg.debug = true ∧ (stampedWrite v vc (f vc.value) s).isStale vc.node = false
+  by_cases h3 : s.cfg.debug = true ∧ (!(s.nodeD vc.node).valid ||
+      (stampedWrite v vc (f vc.value) s).isStale vc.node) = false
   · rw [if_pos h3, if_pos h3]
   rw [if_neg h3, if_neg h3]
-  cases h4 : (s.isNecessary vc.node && !(s.nodeD vc.node).inRch)
+  cases h4 : ((s.nodeD vc.node).valid && s.isNecessary vc.node && !(s.nodeD vc.node).inRch)
   · simp
   · simp only [if_true, Bool.true_eq_false, if_false]
-    have h4' := h4
-    rw [Bool.and_eq_true] at h4'
+    have h4' : s.isNecessary vc.node = true ∧ (!(s.nodeD vc.node).inRch) = true := by
+      rw [Bool.and_eq_true, Bool.and_eq_true] at h4; exact ⟨h4.1.2, h4.2⟩
+    have hvalid : (s.nodeD vc.node).valid = true := by
+      rw [Bool.and_eq_true, Bool.and_eq_true] at h4; exact h4.1.1
     obtain ⟨nd, hnd, hD⟩ := isNecessary_node s vc.node h4'.1
     have hndW : (stampedWrite v vc (f vc.value) s).nodes[vc.node]? = some nd := hnd
     rw [rchInsert_run, hndW, hD]
@@ -242,7 +248,7 @@ theorem writeVar_outside_result (v : Nat) (f : Val → Val) (isSet : Bool) (s : 
       have hd' : s.cfg.debug = true := hd
       have hstale : (stampedWrite v vc (f vc.value) s).isStale vc.node = true := by
         cases hx : (stampedWrite v vc (f vc.value) s).isStale vc.node
-        · exact absurd ⟨hd', hx⟩ h3
+        · exact absurd ⟨hd', by rw [hx, hvalid]; rfl⟩ h3
         · rfl
       have hnec : (stampedWrite v vc (f vc.value) s).isNecessary vc.node = true := h4'.1
       rw [hD] at h4'
@@ -295,7 +301,7 @@ theorem rchInsert_ok (n : Nat) (s s' : State) (u : Unit)
 /-- the final state of a successful immediate write -/
 def wroteOutside (v : Nat) (vc : VarCell) (x : Val) (s : State) : State :=
   if s.stabNum ≤ vc.setAt then bumped (withCell v { vc with value := x } s)
-  else if (s.isNecessary vc.node && !(s.nodeD vc.node).inRch) = true then
+  else if ((s.nodeD vc.node).valid && s.isNecessary vc.node && !(s.nodeD vc.node).inRch) = true then
     inserted vc.node (s.nodeD vc.node).height (stampedWrite v vc x s)
   else stampedWrite v vc x s
 
@@ -303,9 +309,10 @@ theorem writeVar_outside_ok (v : Nat) (f : Val → Val) (isSet : Bool) (s s' : S
     (r : Val) (hv : s.vars[v]? = some vc) (hst : s.status ≠ .stabilising)
     (hr : (writeVar v f isSet).run.run s = (.ok r, s')) :
     r = vc.value ∧ s' = wroteOutside v vc (f vc.value) s ∧ vc.linked = true ∧
-    (vc.setAt < s.stabNum → s.cfg.debug = true →
+    (vc.setAt < s.stabNum → s.cfg.debug = true → (s.nodeD vc.node).valid = true →
       (stampedWrite v vc (f vc.value) s).isStale vc.node = true) ∧
-    (vc.setAt < s.stabNum → (s.isNecessary vc.node && !(s.nodeD vc.node).inRch) = true →
+    (vc.setAt < s.stabNum →
+      ((s.nodeD vc.node).valid && s.isNecessary vc.node && !(s.nodeD vc.node).inRch) = true →
       0 ≤ (s.nodeD vc.node).height ∧ (s.nodeD vc.node).height ≤ s.rch.maxAllowed) := by
   rw [writeVar_outside_closed v f isSet s vc hv hst] at hr
   unfold wroteOutside
@@ -319,15 +326,17 @@ theorem writeVar_outside_ok (v : Nat) (f : Val → Val) (isSet : Bool) (s s' : S
     exact ⟨rfl, rfl, hl, fun h => by omega, fun h => by omega⟩
   rw [if_neg h2] at hr
   rw [if_neg h2]
-  by_cases h3 : s.cfg.debug = true ∧ (stampedWrite v vc (f vc.value) s).isStale vc.node = false
+  by_cases h3 : s.cfg.debug = true ∧ (!(s.nodeD vc.node).valid ||
+      (stampedWrite v vc (f vc.value) s).isStale vc.node) = false
   · rw [if_pos h3] at hr; cases hr
   rw [if_neg h3] at hr
-  have hstale : s.cfg.debug = true → (stampedWrite v vc (f vc.value) s).isStale vc.node = true := by
-    intro hd
+  have hstale : s.cfg.debug = true → (s.nodeD vc.node).valid = true →
+      (stampedWrite v vc (f vc.value) s).isStale vc.node = true := by
+    intro hd hval
     cases hx : (stampedWrite v vc (f vc.value) s).isStale vc.node
-    · exact absurd ⟨hd, hx⟩ h3
+    · exact absurd ⟨hd, by rw [hx, hval]; rfl⟩ h3
     · rfl
-  by_cases h4 : (s.isNecessary vc.node && !(s.nodeD vc.node).inRch) = true
+  by_cases h4 : ((s.nodeD vc.node).valid && s.isNecessary vc.node && !(s.nodeD vc.node).inRch) = true
   · rw [if_pos h4] at hr
     rw [if_pos h4]
     obtain ⟨hrv, u, hu⟩ := mapOk_eq_ok _ _ _ _ hr
@@ -335,6 +344,7 @@ theorem writeVar_outside_ok (v : Nat) (f : Val → Val) (isSet : Bool) (s s' : S
     have hD : s.nodeD vc.node = nd := by
       have : s.nodes[vc.node]? = some nd := hnd
       simp [State.nodeD, this]
+    rw [hD] at hstale
     rw [hD]
     exact ⟨hrv, hs', hl, fun _ => hstale, fun _ _ => ⟨hge, hle⟩⟩
   · rw [if_neg h4] at hr
@@ -346,7 +356,8 @@ theorem writeVar_outside_ok (v : Nat) (f : Val → Val) (isSet : Bool) (s s' : S
 theorem writeVar_outside_no_panic (v : Nat) (f : Val → Val) (isSet : Bool) (s : State) (vc : VarCell)
     (hv : s.vars[v]? = some vc) (hst : s.status ≠ .stabilising)
     (hl : vc.linked = true) (hd : s.cfg.debug = false)
-    (hq : s.isNecessary vc.node = false ∨ (s.nodeD vc.node).inRch = true ∨
+    (hq : (s.nodeD vc.node).valid = false ∨ s.isNecessary vc.node = false ∨
+      (s.nodeD vc.node).inRch = true ∨
       (0 ≤ (s.nodeD vc.node).height ∧ (s.nodeD vc.node).height ≤ s.rch.maxAllowed)) :
     ((writeVar v f isSet).run.run s).1 = .ok vc.value := by
   rw [writeVar_outside_result v f isSet s vc hv hst]
@@ -356,7 +367,8 @@ theorem writeVar_outside_no_panic (v : Nat) (f : Val → Val) (isSet : Bool) (s 
   · split
     · rfl
     · rename_i h4
-      rcases hq with h | h | ⟨h5, h6⟩
+      rcases hq with h | h | h | ⟨h5, h6⟩
+      · simp [h] at h4
       · simp [h] at h4
       · simp [h] at h4
       · rw [if_neg (by omega), if_neg (by omega)]
@@ -454,7 +466,7 @@ theorem wroteOutside_necessary (v : Nat) (vc : VarCell) (x : Val) (s : State) :
 /-- later round, watch node necessary and not yet queued: it is appended to the bucket of its height -/
 theorem wroteOutside_queued (v : Nat) (vc : VarCell) (x : Val) (s : State)
     (hlt : vc.setAt < s.stabNum)
-    (hq : (s.isNecessary vc.node && !(s.nodeD vc.node).inRch) = true) :
+    (hq : ((s.nodeD vc.node).valid && s.isNecessary vc.node && !(s.nodeD vc.node).inRch) = true) :
     (wroteOutside v vc x s).rch.queues =
         s.rch.queues.modify (s.nodeD vc.node).height.toNat (· ++ [vc.node]) ∧
     (wroteOutside v vc x s).rch.length = s.rch.length + 1 ∧
@@ -463,46 +475,48 @@ theorem wroteOutside_queued (v : Nat) (vc : VarCell) (x : Val) (s : State)
   have hlt' : ¬ s.stabNum ≤ vc.setAt := by omega
   unfold wroteOutside
   rw [if_neg hlt', if_pos hq]
-  rw [Bool.and_eq_true] at hq
-  obtain ⟨nd, hnd, hD⟩ := isNecessary_node s _ hq.1
+  rw [Bool.and_eq_true, Bool.and_eq_true] at hq
+  obtain ⟨nd, hnd, hD⟩ := isNecessary_node s _ hq.1.2
   refine ⟨rfl, rfl, ?_, ?_⟩
   · have : s.nodes[vc.node]? = some nd := hnd
     simp [inserted, stampedWrite, bumped, withCell, State.nodeD, Array.getElem?_modify, this]
   · simp [State.isStable, inserted]
 
-/-- later round, watch node unnecessary or already queued: heap and nodes untouched -/
+/-- later round, watch node invalid, unnecessary or already queued: heap and nodes untouched -/
 theorem wroteOutside_not_queued (v : Nat) (vc : VarCell) (x : Val) (s : State)
-    (hq : ¬ (s.isNecessary vc.node && !(s.nodeD vc.node).inRch) = true) :
+    (hq : ¬ ((s.nodeD vc.node).valid && s.isNecessary vc.node && !(s.nodeD vc.node).inRch) = true) :
     (wroteOutside v vc x s).rch = s.rch ∧ (wroteOutside v vc x s).nodes = s.nodes := by
   unfold wroteOutside
   split
   · exact ⟨rfl, rfl⟩
   · exact ⟨rfl, rfl⟩
 
-/-- later round: afterwards the watch node is queued iff it was queued or is necessary -/
+/-- later round: afterwards the watch node is queued iff it was queued or is valid and necessary -/
 theorem wroteOutside_inRch (v : Nat) (vc : VarCell) (x : Val) (s : State)
     (hlt : vc.setAt < s.stabNum)
-    (hh : (s.isNecessary vc.node && !(s.nodeD vc.node).inRch) = true → 0 ≤ (s.nodeD vc.node).height) :
+    (hh : ((s.nodeD vc.node).valid && s.isNecessary vc.node && !(s.nodeD vc.node).inRch) = true →
+      0 ≤ (s.nodeD vc.node).height) :
     ((wroteOutside v vc x s).nodeD vc.node).inRch =
-      ((s.nodeD vc.node).inRch || s.isNecessary vc.node) := by
-  by_cases hq : (s.isNecessary vc.node && !(s.nodeD vc.node).inRch) = true
+      ((s.nodeD vc.node).inRch || ((s.nodeD vc.node).valid && s.isNecessary vc.node)) := by
+  by_cases hq : ((s.nodeD vc.node).valid && s.isNecessary vc.node && !(s.nodeD vc.node).inRch) = true
   · have h1 := (wroteOutside_queued v vc x s hlt hq).2.2.1
     have h2 := hh hq
-    rw [Bool.and_eq_true] at hq
-    simp only [Node.inRch, h1, hq.1, Bool.or_true]
+    rw [Bool.and_eq_true, Bool.and_eq_true] at hq
+    simp only [Node.inRch, h1, hq.1.1, hq.1.2, Bool.and_self, Bool.or_true]
     simpa using h2
   · have h1 := (wroteOutside_not_queued v vc x s hq).2
     have : (wroteOutside v vc x s).nodeD vc.node = s.nodeD vc.node := by
       simp [State.nodeD, h1]
     rw [this]
-    cases ha : s.isNecessary vc.node <;> cases hb : (s.nodeD vc.node).inRch <;> simp_all
+    cases ha : s.isNecessary vc.node <;> cases hb : (s.nodeD vc.node).inRch <;>
+      cases hc : (s.nodeD vc.node).valid <;> simp_all
 
 /-! ## `didSetVarWhileNotStabilising`: the final state when it returns -/
 
 /-- final state of a successful `did_set_var_while_not_stabilising` on cell `vc` -/
 def didSetFinal (v : Nat) (vc : VarCell) (s : State) : State :=
   if s.stabNum ≤ vc.setAt then bumped s
-  else if (s.isNecessary vc.node && !(s.nodeD vc.node).inRch) = true then
+  else if ((s.nodeD vc.node).valid && s.isNecessary vc.node && !(s.nodeD vc.node).inRch) = true then
     inserted vc.node (s.nodeD vc.node).height (bumped (withCell v { vc with setAt := s.stabNum } s))
   else bumped (withCell v { vc with setAt := s.stabNum } s)
 
@@ -523,10 +537,11 @@ theorem didSet_ok (v : Nat) (s s' : State) (vc : VarCell) (u : Unit)
   rw [if_neg h2]
   simp only at hr
   by_cases h3 : s.cfg.debug = true ∧
-      (bumped (withCell v { vc with setAt := s.stabNum } s)).isStale vc.node = false
+      (!(s.nodeD vc.node).valid ||
+        (bumped (withCell v { vc with setAt := s.stabNum } s)).isStale vc.node) = false
   · rw [if_pos h3] at hr; cases hr
   rw [if_neg h3] at hr
-  by_cases h4 : (s.isNecessary vc.node && !(s.nodeD vc.node).inRch) = true
+  by_cases h4 : ((s.nodeD vc.node).valid && s.isNecessary vc.node && !(s.nodeD vc.node).inRch) = true
   · rw [if_pos h4] at hr
     rw [if_pos h4]
     obtain ⟨nd, hnd, _, _, hs'⟩ := rchInsert_ok _ _ _ _ hr
@@ -834,11 +849,14 @@ theorem writeVar_outside_stale (v : Nat) (f : Val → Val) (isSet : Bool) (s s' 
     (hn : s.nodes[vc.node]? = some nd) (hk : nd.kind = .var v)
     (hr : (writeVar v f isSet).run.run s = (.ok r, s')) :
     s'.isStale vc.node = (nd.valid && decide (nd.recomputedAt < s.stabNum)) ∧
-    (s.cfg.debug = true → s'.isStale vc.node = true) := by
+    (s.cfg.debug = true → nd.valid = true → s'.isStale vc.node = true) := by
   obtain ⟨-, rfl, -, h4, -⟩ := writeVar_outside_ok v f isSet s s' vc r hv hst hr
   have e := wroteOutside_stale v vc (f vc.value) s nd hv hlt hn hk
-  refine ⟨e, fun hd => ?_⟩
-  have hW := h4 hlt hd
+  refine ⟨e, fun hd hval => ?_⟩
+  have hD : s.nodeD vc.node = nd := by
+    have : s.nodes[vc.node]? = some nd := hn
+    simp [State.nodeD, this]
+  have hW := h4 hlt hd (by rw [hD]; exact hval)
   have hnW : (stampedWrite v vc (f vc.value) s).nodes[vc.node]? = some nd := hn
   have hvW : (stampedWrite v vc (f vc.value) s).vars[v]? =
       some { vc with value := f vc.value, setAt := s.stabNum } := withCell_get v _ vc s hv
@@ -849,21 +867,74 @@ theorem writeVar_outside_heap (v : Nat) (f : Val → Val) (isSet : Bool) (s s' :
     (vc : VarCell) (r : Val) (hv : s.vars[v]? = some vc) (hst : s.status ≠ .stabilising)
     (hlt : vc.setAt < s.stabNum)
     (hr : (writeVar v f isSet).run.run s = (.ok r, s')) :
-    (s'.nodeD vc.node).inRch = ((s.nodeD vc.node).inRch || s.isNecessary vc.node) ∧
+    (s'.nodeD vc.node).inRch =
+      ((s.nodeD vc.node).inRch || ((s.nodeD vc.node).valid && s.isNecessary vc.node)) ∧
     s'.isNecessary vc.node = s.isNecessary vc.node ∧
-    ((s.isNecessary vc.node && !(s.nodeD vc.node).inRch) = true →
+    (((s.nodeD vc.node).valid && s.isNecessary vc.node && !(s.nodeD vc.node).inRch) = true →
       0 ≤ (s.nodeD vc.node).height ∧ (s.nodeD vc.node).height ≤ s.rch.maxAllowed ∧
       s'.rch.queues = s.rch.queues.modify (s.nodeD vc.node).height.toNat (· ++ [vc.node]) ∧
       s'.rch.length = s.rch.length + 1 ∧
       (s'.nodeD vc.node).heightInRch = (s.nodeD vc.node).height ∧
       s'.isStable = false) ∧
-    (¬ (s.isNecessary vc.node && !(s.nodeD vc.node).inRch) = true →
+    (¬ ((s.nodeD vc.node).valid && s.isNecessary vc.node && !(s.nodeD vc.node).inRch) = true →
       s'.rch = s.rch ∧ s'.nodes = s.nodes) := by
   obtain ⟨-, rfl, -, -, h5⟩ := writeVar_outside_ok v f isSet s s' vc r hv hst hr
   refine ⟨wroteOutside_inRch v vc _ s hlt (fun hq => (h5 hlt hq).1),
     wroteOutside_necessary v vc _ s, fun hq => ?_, fun hq => wroteOutside_not_queued v vc _ s hq⟩
   obtain ⟨q1, q2, q3, q4⟩ := wroteOutside_queued v vc (f vc.value) s hlt hq
   exact ⟨(h5 hlt hq).1, (h5 hlt hq).2, q1, q2, q3, q4⟩
+
+/-! ## immediate writes to a var whose watch node has been invalidated (D14) -/
+
+/-- the final state of an immediate write that does not touch nodes or heap: the new value, `set_at`
+raised to the current round if it was older, the `var_sets` counter incremented -/
+def wroteQuiet (v : Nat) (vc : VarCell) (x : Val) (s : State) : State :=
+  bumped (withCell v { vc with value := x,
+                               setAt := if vc.setAt < s.stabNum then s.stabNum else vc.setAt } s)
+
+theorem wroteQuiet_eq (v : Nat) (vc : VarCell) (x : Val) (s : State) :
+    wroteQuiet v vc x s =
+      if s.stabNum ≤ vc.setAt then bumped (withCell v { vc with value := x } s)
+      else stampedWrite v vc x s := by
+  unfold wroteQuiet stampedWrite
+  by_cases h : s.stabNum ≤ vc.setAt
+  · have h' : ¬ vc.setAt < s.stabNum := by omega
+    rw [if_pos h, if_neg h']
+  · have h' : vc.setAt < s.stabNum := by omega
+    rw [if_neg h, if_pos h']
+
+/-- D14: watch node invalid, var still linked — the write succeeds (debug and release) and leaves
+`wroteQuiet` -/
+theorem writeVar_outside_invalid (v : Nat) (f : Val → Val) (isSet : Bool) (s : State) (vc : VarCell)
+    (hv : s.vars[v]? = some vc) (hst : s.status ≠ .stabilising)
+    (hl : vc.linked = true) (hinv : (s.nodeD vc.node).valid = false) :
+    (writeVar v f isSet).run.run s = (.ok vc.value, wroteQuiet v vc (f vc.value) s) := by
+  rw [writeVar_outside_closed v f isSet s vc hv hst, wroteQuiet_eq]
+  have h1 : ¬ vc.linked = false := by simp [hl]
+  rw [if_neg h1]
+  by_cases h2 : s.stabNum ≤ vc.setAt
+  · rw [if_pos h2, if_pos h2]
+  · rw [if_neg h2, if_neg h2]
+    have h3 : ¬ (s.cfg.debug = true ∧ (!(s.nodeD vc.node).valid ||
+        (stampedWrite v vc (f vc.value) s).isStale vc.node) = false) := by
+      simp [hinv]
+    have h4 : ¬ ((s.nodeD vc.node).valid && s.isNecessary vc.node && !(s.nodeD vc.node).inRch) = true := by
+      simp [hinv]
+    rw [if_neg h3, if_neg h4]
+
+theorem wroteQuiet_facts (v : Nat) (vc : VarCell) (x : Val) (s : State) (hv : s.vars[v]? = some vc) :
+    (wroteQuiet v vc x s).vars[v]? =
+        some { vc with value := x, setAt := if vc.setAt < s.stabNum then s.stabNum else vc.setAt } ∧
+    (∀ w, w ≠ v → (wroteQuiet v vc x s).vars[w]? = s.vars[w]?) ∧
+    (wroteQuiet v vc x s).nodes = s.nodes ∧ (wroteQuiet v vc x s).rch = s.rch ∧
+    (wroteQuiet v vc x s).ahh = s.ahh ∧ (wroteQuiet v vc x s).stabNum = s.stabNum ∧
+    (wroteQuiet v vc x s).status = s.status ∧
+    (wroteQuiet v vc x s).setDuringStab = s.setDuringStab ∧
+    (wroteQuiet v vc x s).observers = s.observers ∧ (wroteQuiet v vc x s).cfg = s.cfg ∧
+    (wroteQuiet v vc x s).maxHeightSeen = s.maxHeightSeen ∧
+    (wroteQuiet v vc x s).counters.varSets = s.counters.varSets + 1 :=
+  ⟨withCell_get v _ vc s hv, fun w hw => withCell_get_ne v w _ s hw,
+    rfl, rfl, rfl, rfl, rfl, rfl, rfl, rfl, rfl, rfl⟩
 
 /-! ## example states (non-vacuity witnesses used by `Props/C08.lean`) -/
 
